@@ -170,6 +170,8 @@ def verus_unit(name, g, rec, scratch, seed, with_lemmas):
             times[f['function']] = dict(ms=f['time-micros'] // 1000, rlimit=f.get('rlimit'), ok=f.get('success'))
     # vacuity guard: the `ensures false` twin of every extracted function must be REJECTED
     vac = vacuity_twin(g, scratch, seed, name)
+    if with_lemmas and os.environ.get('VERIF_TIER_EFFECTIVE') == 'thorough':
+        vac['lemma_layer'] = lemma_vacuity_twins(g, scratch, seed, name)
     return dict(g=g, rec=rec, failed=failed, summary=vr, wall=wall, cmd=' '.join(cmd), times=times, vacuity=vac, seed_retries=retries,
                 smt_ms=summary.get('times-ms', {}).get('smt', {}).get('total'))
 
@@ -260,6 +262,73 @@ def vacuity_twin(g, scratch, seed, name='collector'):
     return dict(twins=len(names), all_rejected=True)
 
 
+def lemma_vacuity_twins(g, scratch, seed, name):
+    """Thorough tier: every lemma / theorem of the lemma layer gets a twin with the same requires and proof body and `ensures false`; each
+    must be REJECTED (a lemma whose hypotheses are contradictory would prove anything, and every theorem built on it would be vacuous)."""
+    lines = list(g.lines)
+    inserts = []
+    for key, (a, b) in g.fnspan.items():
+        if not key.startswith('file:'):
+            continue
+        ln = a
+        while ln <= b:
+            m = re.match(r'pub (broadcast )?proof fn (\w+)\s*(<[^>]*>)?\(', lines[ln - 1])
+            if not m:
+                ln += 1; continue
+            st = ln
+            # function end by brace matching from the first line that is exactly '{'
+            ob = st
+            while lines[ob - 1] != '{':
+                ob += 1
+            text = '\n'.join(lines[ob - 1:b])
+            close = extract.match_close(text, 0)
+            en = ob + text[:close].count('\n')
+            blk = lines[st - 1:en]
+            nm = m.group(2)
+            out = [re.sub(r'pub (broadcast )?proof fn %s' % nm, 'pub proof fn %s__vac' % nm, blk[0])]
+            k = 1
+            # keep everything up to `ensures`, replace the ensures clauses (they end at the line that is exactly '{')
+            hdr_has_ens = 'ensures' in blk[0]
+            while k < len(blk) and not blk[k].lstrip().startswith('ensures') and blk[k] != '{':
+                out.append(blk[k]); k += 1
+            if k < len(blk) and blk[k].lstrip().startswith('ensures') and not hdr_has_ens:
+                out.append('    ensures false,')
+                k += 1
+                while blk[k] != '{' and not blk[k].lstrip().startswith('decreases'):
+                    k += 1
+                out += blk[k:]
+                inserts.append((en, out, nm + '__vac'))
+            ln = en + 1
+    inserts.sort(key=lambda x: -x[0])
+    for (after, tw, nm) in inserts:
+        lines[after:after] = tw
+    path = os.path.join(scratch, name + '_lemma_vacuity.rs')
+    open(path, 'w').write('\n'.join(lines) + '\n')
+    cmd = ['verus', path, '--rlimit', '4', '--multiple-errors', '0', '--triggers-mode', 'silent', '--error-format=json', '--output-json', '--time-expanded',
+           '--num-threads', str(min(NPROC, 16))]
+    try:
+        r = subprocess.run(cmd, capture_output=True, text=True, timeout=1800, cwd=scratch)
+    except subprocess.TimeoutExpired:
+        raise Undecided('lemma vacuity twins timed out')
+    try:
+        full = json.loads(r.stdout[r.stdout.index('{'):])
+    except Exception:
+        raise Undecided('lemma vacuity twins: no JSON summary: ' + r.stderr[-1200:])
+    if full.get('verification-results', {}).get('encountered-vir-error'):
+        raise Undecided('lemma vacuity twins do not compile: ' + r.stderr[-1500:])
+    seen = {}
+    for m in full.get('times-ms', {}).get('smt', {}).get('smt-run-module-times', []):
+        for f in m.get('function-breakdown', []):
+            if f['function'].endswith('__vac'):
+                seen[f['function'].split('::')[-1]] = f.get('success')
+    names = [nm for (_, _, nm) in inserts]
+    accepted = [nm for nm in names if seen.get(nm)]
+    missing = [nm for nm in names if nm not in seen]
+    if accepted or len(missing) > len(names) // 2:
+        raise Undecided('lemma vacuity guard: `ensures false` twins accepted: %s; not checked: %d of %d' % (accepted, len(missing), len(names)))
+    return dict(twins=len(names), rejected=len(names) - len(missing), not_checked=missing[:10])
+
+
 # ------------------------------------------------------------------------------------------------ assumptions scan
 ASSUME_PAT = re.compile(r'\bassume\(|\badmit\(|external_body|assume_specification|\baxiom fn\b|kani::assume|kani::stub')
 
@@ -295,6 +364,7 @@ def main():
     args = ap.parse_args()
     seed = int(os.environ.get('VERIF_SEED', '0') or 0)
     pid = args.prop
+    os.environ['VERIF_TIER_EFFECTIVE'] = args.tier
     t0 = time.time()
     scratch = os.path.join(SCRATCH_ROOT, 'gcverif.%s.%d' % (pid, os.getpid()))
     os.makedirs(scratch, exist_ok=True)
